@@ -1,12 +1,31 @@
 /- Line-protocol model driver for C10.
     rows                                          -> "bad <opnum>..." | "ok"      (rows of the generated tables that fail rowOk)
     consistent                                    -> "true" | "false"
+    fiber <status> <noUseval> <noSkip> <frame> <stackstart> <stacktop> <maxstack> {7 numbers per frame record}
+                                                  -> "inv=<acc|rej> src=<acc|rej>"  (all checks = the invariant / checks of the current source)
     verify <sc> <arity> <vararg> <nc> <nd> <ne> <hex of u32 LE words> -> error code of the janet_verify model (0 = accepted)
 -/
 import Driver.Util
 import JanetModel.Bytecode.VerifyDefs
 import JanetModel.Gen.VmAccess
-open Driver JanetModel.Bytecode JanetModel.Gen.VmAccess
+import JanetModel.Unmarsh.Image
+import JanetModel.Gen.ImageChecks
+open Driver JanetModel.Bytecode JanetModel.Gen.VmAccess JanetModel.Unmarsh
+
+def allChecks : Checks :=
+  { stackSetup := true, frameSize := true, pcRange := true, prevAlign := true, statusRange := true, frame0 := true,
+    entrance := true, callPc := true, resumeOperand := true, fnEnvCount := true, defEnvIndex := true,
+    envNegOffset := true, envValidBeforeDeref := true }
+
+def parseFrames : List Nat → Option (List FrameRec)
+  | [] => some []
+  | e :: p :: pc :: sc :: bl :: ac :: asl :: rest =>
+    match parseFrames rest with
+    | some fs => some ({ entrance := e != 0, prevframe := p, pcdiff := pc, slotcount := sc, bclen := bl, atCall := ac != 0, aIsSlot := asl != 0 } :: fs)
+    | none => none
+  | _ => none
+
+def allNat (l : List String) : Option (List Nat) := l.mapM String.toNat?
 
 def wordsOfBytes : List Nat → List Nat
   | a :: b :: c :: d :: rest => (a + 256 * b + 65536 * c + 16777216 * d) :: wordsOfBytes rest
@@ -29,6 +48,18 @@ def step (_ : Unit) (toks : List String) : Unit × String :=
     | some sc, some ar, some va, some nc, some nd, some ne =>
       ((), toString (verify tables { slotcount := sc, arity := ar, vararg := va != 0, nconsts := nc, ndefs := nd, nenvs := ne, bytecode := [] }))
     | _, _, _, _, _, _ => ((), "bad-op")
+  | "fiber" :: rest =>
+    -- fiber <status> <noUseval> <noSkip> <frame> <stackstart> <stacktop> <maxstack> {<entrance> <prevframe> <pcdiff> <slotcount> <bclen> <atCall> <aIsSlot>}*
+    match allNat rest with
+    | some (st :: nu :: ns :: fr :: ss :: stp :: mx :: recs) =>
+      match parseFrames recs with
+      | some fs =>
+        let h : FiberHdr := { status := st, noUseval := nu != 0, noSkip := ns != 0, frame := fr, stackstart := ss, stacktop := stp, maxstack := mx }
+        let inv := acceptFiber allChecks h fs
+        let src := acceptFiber JanetModel.Gen.ImageChecks.checks h fs
+        ((), s!"inv={if inv then "acc" else "rej"} src={if src then "acc" else "rej"}")
+      | none => ((), "bad-op")
+    | _ => ((), "bad-op")
   | _ => ((), "bad-op")
 
 def main : IO Unit := runLoop () step
